@@ -14,3 +14,5 @@ for p in "$@"; do
 done
 git checkout -- . && git clean -fdq -- ante keeper module simapp *.go 2>/dev/null
 git status --short | head
+# rebuild the harness against the restored tree (the checks rebuild anyway; manual sweeps use the binary directly)
+(cd /verif/harness && GOFLAGS= GOPROXY=off GOSUMDB=off GOTOOLCHAIN=local GOWORK=/verif/harness/go.work go build -tags verif -o /verif/.build/harness .)
